@@ -232,3 +232,29 @@ Theorem c04_latest_checkpoint_order_independent :
   latest_ckpt mt b (rev fs) = latest_ckpt mt b fs.
 Proof. exact latest_ckpt_rev. Qed.
 Print Assumptions c04_latest_checkpoint_order_independent.
+
+(* ---------------------------------------------------------------- continuities/index.json (only the default-thread recovery is claimed) *)
+Theorem c04_default_recovery :
+  forall (ws : N) (cs : list created) (id : N),
+  recover_default ws cs = Some id -> exists c, In c cs /\ cr_id c = id /\ cr_ws c = ws.
+Proof. exact default_recovery_existing. Qed.
+Print Assumptions c04_default_recovery.
+
+Theorem c04_default_recovery_creates_only_when_none :
+  forall (ws : N) (cs : list created),
+  recover_default ws cs = None -> forall c, In c cs -> cr_ws c <> ws.
+Proof. exact default_recovery_none. Qed.
+Print Assumptions c04_default_recovery_creates_only_when_none.
+
+Theorem c04_default_recovery_identity_partial :
+  forall (ws ts id : N) (others : list created),
+  (forall c, In c others -> cr_ws c <> ws) ->
+  recover_default ws ((ts, id, ws) :: others) = Some id.
+Proof. exact default_recovery_single. Qed.
+Print Assumptions c04_default_recovery_identity_partial.
+
+(* S15 (open): default thread 1 created at t=100, its branch child 2 at t=105, same workspace key *)
+Theorem c04_default_recovery_identity_refuted :
+  recover_default 7 [(100, 1, 7); (105, 2, 7)] = Some 2.
+Proof. exact default_recovery_child. Qed.
+Print Assumptions c04_default_recovery_identity_refuted.
